@@ -16,6 +16,9 @@ SPEC = {
         {"name": "gossip", "pkg": "./gossip", "search_cases": 6000, "quick_cases": 600},
         # the group key is the key of the replicated log: every instance must derive the same one from the same configuration (C07's engine)
         {"name": "route", "pkg": "./route", "search_cases": 20000, "quick_cases": 2500, "only": ["route_key_spec"]},
+        # a (re)started instance must receive the cluster's notification log at join time: the application registers its
+        # states before it joins (C19's engine: real memberlist; the order in app/app.go is read from the source)
+        {"name": "mesh", "pkg": "./mesh", "search_cases": 4, "timeout_quick": 400, "only": ["full_state_superset"]},
     ],
     "rule": "1-3 REAL pipelines (PipelineBuilder.New incl. the real ClusterWaitStage, wait = position x 15 s, every assignment of positions) each on its own real "
             "nflog.Log, joined by a scripted gossip channel (per-link delay below / above the peer timeout, loss, late re-delivery of everything ever broadcast), "
